@@ -1583,6 +1583,7 @@ pub proof fn lemma_count_bounds(w: nat, u: nat)
 }
 // ---- extracted fn ir::impl ByteSize::new ----
 impl ByteSize {
+    #[verifier::exec_allows_no_decreases_clause]
     pub fn new( value : u64 ) -> (r: ByteSize)
     ensures r.0 == value,
     {
@@ -1591,6 +1592,7 @@ impl ByteSize {
 }
 // ---- extracted fn ir::impl ByteSize::as_bit_length ----
 impl ByteSize {
+    #[verifier::exec_allows_no_decreases_clause]
     pub fn as_bit_length( self ) -> (r: usize)
     requires self.0 <= MAXBYTES(),
     ensures r == self.0 * 8,
@@ -1600,6 +1602,7 @@ impl ByteSize {
 }
 // ---- extracted fn ir::impl From<ByteSize> for apint::BitWidth::from ----
 impl From < ByteSize > for BitWidth {
+    #[verifier::exec_allows_no_decreases_clause]
     fn from( bytesize : ByteSize ) -> (r: BitWidth)
     {
         verif_assume_or_diverge(bytesize.0 <= 0x200_0000);
@@ -1612,6 +1615,7 @@ impl FromSpecImpl<ByteSize> for BitWidth {
 }
 // ---- extracted fn ir::impl From<apint::BitWidth> for ByteSize::from ----
 impl From < BitWidth > for ByteSize {
+    #[verifier::exec_allows_no_decreases_clause]
     fn from( bitwidth : BitWidth ) -> (r: ByteSize)
     {
         verif_assume_or_diverge(bitwidth.n <= 0x1000_0000);
@@ -1624,6 +1628,7 @@ impl FromSpecImpl<BitWidth> for ByteSize {
 }
 // ---- extracted fn bv::impl BitvectorExtended for Bitvector::into_resize_unsigned ----
 impl Bitvector {
+    #[verifier::exec_allows_no_decreases_clause]
     fn into_resize_unsigned( self , size : ByteSize ) -> (r: Bitvector)
     requires self.wf(), 1 <= size.0 <= MAXBYTES(),
     ensures r.wf(),
@@ -1638,6 +1643,7 @@ impl Bitvector {
 }
 // ---- extracted fn bv::impl BitvectorExtended for Bitvector::into_resize_signed ----
 impl Bitvector {
+    #[verifier::exec_allows_no_decreases_clause]
     fn into_resize_signed( self , size : ByteSize ) -> (r: Bitvector)
     requires self.wf(), 1 <= size.0 <= MAXBYTES(),
     ensures r.wf(),
@@ -1652,6 +1658,7 @@ impl Bitvector {
 }
 // ---- extracted fn bv::impl BitvectorExtended for Bitvector::bytesize ----
 impl Bitvector {
+    #[verifier::exec_allows_no_decreases_clause]
     fn bytesize( & self ) -> (r: ByteSize)
     requires self.wf(),
     ensures r.0 == (self.w@ + 7) / 8,
@@ -1661,6 +1668,7 @@ impl Bitvector {
 }
 // ---- extracted fn bv::impl BitvectorExtended for Bitvector::cast ----
 impl Bitvector {
+    #[verifier::exec_allows_no_decreases_clause]
     fn cast( & self , kind : CastOpType , width : ByteSize ) -> (r: Result < Bitvector , Error >)
     requires 1 <= width.0 <= MAXBYTES(), wellsized_cast(kind, *self, (width.0 * 8) as nat),
     ensures r is Ok ==> pcode_cast(kind, *self, (width.0 * 8) as nat) == Some(r->Ok_0) && r->Ok_0.wf(),
@@ -1689,6 +1697,7 @@ impl Bitvector {
 }
 // ---- extracted fn bv::impl BitvectorExtended for Bitvector::subpiece ----
 impl Bitvector {
+    #[verifier::exec_allows_no_decreases_clause]
     fn subpiece( & self , low_byte : ByteSize , size : ByteSize ) -> (r: Bitvector)
     requires self.wf(), low_byte.0 * 8 < self.w@, 1 <= size.0, size.0 * 8 <= self.w@,
     ensures r == pcode_subpiece(*self, (low_byte.0 * 8) as nat, (size.0 * 8) as nat), r.wf(),
@@ -1702,6 +1711,7 @@ impl Bitvector {
 }
 // ---- extracted fn bv::impl BitvectorExtended for Bitvector::un_op ----
 impl Bitvector {
+    #[verifier::exec_allows_no_decreases_clause]
     fn un_op( & self , op : UnOpType ) -> (r: Result < Bitvector , Error >)
     requires wellsized_un(op, *self),
     ensures r is Ok ==> pcode_un(op, *self) == Some(r->Ok_0) && r->Ok_0.wf(),
@@ -1729,6 +1739,7 @@ impl Bitvector {
 }
 // ---- extracted fn bv::impl BitvectorExtended for Bitvector::bin_op ----
 impl Bitvector {
+    #[verifier::exec_allows_no_decreases_clause]
     fn bin_op( & self , op : BinOpType , rhs : & Bitvector ) -> (r: Result < Bitvector , Error >)
     requires wellsized_bin(op, *self, *rhs),
     ensures r is Ok ==> pcode_bin(op, *self, *rhs) == Some(r->Ok_0) && r->Ok_0.wf(),
@@ -1891,6 +1902,7 @@ impl Bitvector {
 }
 // ---- extracted fn bv::impl BitvectorExtended for Bitvector::signed_add_overflow_checked ----
 impl Bitvector {
+    #[verifier::exec_allows_no_decreases_clause]
     fn signed_add_overflow_checked( & self , rhs : & Bitvector ) -> (r: Option < Bitvector >)
     requires self.wf(), rhs.wf(), self.w@ == rhs.w@,
     ensures r is Some ==> r->Some_0 == bv_add(*self, *rhs) && r->Some_0.wf() && r->Some_0.s() == self.s() + rhs.s(),
@@ -1911,6 +1923,7 @@ impl Bitvector {
 }
 // ---- extracted fn bv::impl BitvectorExtended for Bitvector::signed_sub_overflow_checked ----
 impl Bitvector {
+    #[verifier::exec_allows_no_decreases_clause]
     fn signed_sub_overflow_checked( & self , rhs : & Bitvector ) -> (r: Option < Bitvector >)
     requires self.wf(), rhs.wf(), self.w@ == rhs.w@,
     ensures r is Some ==> r->Some_0 == bv_sub(*self, *rhs) && r->Some_0.wf() && r->Some_0.s() == self.s() - rhs.s(),
@@ -1931,6 +1944,7 @@ impl Bitvector {
 }
 // ---- extracted fn bv::impl BitvectorExtended for Bitvector::signed_mult_with_overflow_flag ----
 impl Bitvector {
+    #[verifier::exec_allows_no_decreases_clause]
     fn signed_mult_with_overflow_flag( & self , rhs : & Bitvector ) -> (r: Result < ( Bitvector , bool ) , Error >)
     requires self.wf(), rhs.wf(), self.w@ == rhs.w@, self.w@ >= 2,
     ensures r is Err <==> (self.u@ != 0 && self.w@ > 64),
@@ -2117,6 +2131,7 @@ impl BitvectorDomain {
 }
 // ---- extracted fn bd::impl SizedDomain for BitvectorDomain::bytesize ----
 impl BitvectorDomain {
+    #[verifier::exec_allows_no_decreases_clause]
     fn bytesize( & self ) -> (r: ByteSize)
     requires self.wf(),
     ensures r.0 as nat == self.bytes(),
@@ -2130,6 +2145,7 @@ impl BitvectorDomain {
 }
 // ---- extracted fn bd::impl SizedDomain for BitvectorDomain::new_top ----
 impl BitvectorDomain {
+    #[verifier::exec_allows_no_decreases_clause]
     fn new_top( bytesize : ByteSize ) -> (r: BitvectorDomain)
     ensures r == BitvectorDomain::Top(bytesize),
     {
@@ -2138,6 +2154,7 @@ impl BitvectorDomain {
 }
 // ---- extracted fn bd::impl HasTop for BitvectorDomain::top ----
 impl BitvectorDomain {
+    #[verifier::exec_allows_no_decreases_clause]
     fn top( & self ) -> (r: BitvectorDomain)
     requires self.wf(),
     ensures r is Top, r->Top_0.0 as nat == self.bytes(),
@@ -2147,6 +2164,7 @@ impl BitvectorDomain {
 }
 // ---- extracted fn bd::impl AbstractDomain for BitvectorDomain::is_top ----
 impl BitvectorDomain {
+    #[verifier::exec_allows_no_decreases_clause]
     fn is_top( & self ) -> (r: bool)
     ensures r == (*self is Top),
     {
@@ -2155,6 +2173,7 @@ impl BitvectorDomain {
 }
 // ---- extracted fn bd::impl AbstractDomain for BitvectorDomain::merge ----
 impl BitvectorDomain {
+    #[verifier::exec_allows_no_decreases_clause]
     fn merge( & self , other : & BitvectorDomain ) -> (r: BitvectorDomain)
     requires self.wf(), other.wf(),
     ensures *self == *other ==> r == *self,
@@ -2169,6 +2188,7 @@ impl BitvectorDomain {
 }
 // ---- extracted fn ad::trait RegisterDomain::bin_op_bytesize ----
 impl BitvectorDomain {
+    #[verifier::exec_allows_no_decreases_clause]
     fn bin_op_bytesize( & self , op : BinOpType , rhs : & BitvectorDomain ) -> (r: ByteSize)
     requires self.wf(), rhs.wf(), self.bytes() + rhs.bytes() <= MAXBYTES(),
     ensures r.0 as nat == (if op is Piece { self.bytes() + rhs.bytes() } else if is_bool_result_binop(op) { 1 } else { self.bytes() }),
@@ -2187,6 +2207,7 @@ impl BitvectorDomain {
 }
 // ---- extracted fn bd::impl RegisterDomain for BitvectorDomain::bin_op ----
 impl BitvectorDomain {
+    #[verifier::exec_allows_no_decreases_clause]
     fn bin_op( & self , op : BinOpType , rhs : & BitvectorDomain ) -> (r: BitvectorDomain)
     requires self.wf(), rhs.wf(), self.bytes() + rhs.bytes() <= MAXBYTES(),
         (*self is Value && *rhs is Value) ==> wellsized_bin(op, self->Value_0, rhs->Value_0),
@@ -2216,6 +2237,7 @@ impl BitvectorDomain {
 }
 // ---- extracted fn bd::impl RegisterDomain for BitvectorDomain::un_op ----
 impl BitvectorDomain {
+    #[verifier::exec_allows_no_decreases_clause]
     fn un_op( & self , op : UnOpType ) -> (r: BitvectorDomain)
     requires self.wf(), *self is Value ==> wellsized_un(op, self->Value_0),
     ensures
@@ -2241,6 +2263,7 @@ impl BitvectorDomain {
 }
 // ---- extracted fn bd::impl RegisterDomain for BitvectorDomain::subpiece ----
 impl BitvectorDomain {
+    #[verifier::exec_allows_no_decreases_clause]
     fn subpiece( & self , low_byte : ByteSize , size : ByteSize ) -> (r: BitvectorDomain)
     requires self.wf(), *self is Value ==> (low_byte.0 * 8 < self->Value_0.w@ && 1 <= size.0 && size.0 * 8 <= self->Value_0.w@),
     ensures
@@ -2256,6 +2279,7 @@ impl BitvectorDomain {
 }
 // ---- extracted fn bd::impl RegisterDomain for BitvectorDomain::cast ----
 impl BitvectorDomain {
+    #[verifier::exec_allows_no_decreases_clause]
     fn cast( & self , kind : CastOpType , width : ByteSize ) -> (r: BitvectorDomain)
     requires self.wf(), 1 <= width.0 <= MAXBYTES(), *self is Value ==> wellsized_cast(kind, self->Value_0, (width.0 * 8) as nat),
     ensures
